@@ -25,7 +25,8 @@ import (
 var c01ValLit = []string{"null", "1", `"x"`, "[1]", `{"a":1}`, `"1"`, "2", "true", "[1]", "[2]", `{"a":1}`,
 	`{"a":2}`, `"x1"`, `""`, `"<nil>"`, "[[1]]", "del([1],0)", "{}", "false", `"[1]"`, "", "0", "-0",
 	`{"a":{"b":1}}`, `[{"a":1}]`, `{"a":[1]}`, `{"a":{"b":1}}`,
-	`["1"]`, `{"a":"1"}`, `[1,2]`, `["1 2"]`, `[]`, "", "", `"X"`, `[[]]`}
+	`["1"]`, `{"a":"1"}`, `[1,2]`, `["1 2"]`, `[]`, "", "", `"X"`, `[[]]`,
+	`["changed3"]`, `{"a":1,"changed":1}`}
 
 // values without an ECAL literal: NaN, a nil map, a Go int
 var c01NoLiteral = map[int]bool{c01NaN: true, 32: true, 33: true}
@@ -146,11 +147,11 @@ func c01Program(c *c01Case) string {
 			var kvs []string
 			for ki, kv := range r.state {
 				lit := c01TokLit(kv.tok)
-				if c.mutate && kv.tok[0] == 'D' && lit != "[]" && lit != "{}" && lit != "del([1],0)" {
+				if _, changes := c01Changed(c01TokVal(kv.tok), 0); c.mutate && kv.tok[0] == 'D' && changes {
 					v := fmt.Sprintf("pv%dk%d", ri, ki)
 					fmt.Fprintf(&sb, "%s := %s\n", v, lit)
 					if lit[0] == '[' {
-						mutations = append(mutations, v+"[0] := \"changed\"")
+						mutations = append(mutations, fmt.Sprintf("%s[0] := \"changed%d\"", v, c01TokClass(kv.tok)))
 					} else {
 						mutations = append(mutations, v+"[\"changed\"] := 1")
 					}
@@ -374,7 +375,7 @@ func c01GenECAL(g *Gen, emit func(c *c01Case, what string)) {
 			mk("m1", []string{"a"}, nil, c01St("k", V(4)), false), mk("n1", []string{"a"}, nil, c01St("k", V(15)), false),
 		}
 		es := []c01Event{ev("e", "a", c01St("k", V(3))), ev("e", "a", c01St("k", V(4))), ev("e", "a", c01St("k", V(15))),
-			ev("e", "a", c01St("k", V(9))), ev("e", "a", nil)}
+			ev("e", "a", c01St("k", V(9))), ev("e", "a", nil), ev("e", "a", c01St("k", V(36))), ev("e", "a", c01St("k", V(37)))}
 		emit(&c01Case{level: "e", mode: "w", workers: 1, rules: rs, scope: []c01KV{{"", "1"}}, events: es, mutate: true}, "ecal-pattern-variable-changed")
 		emit(&c01Case{level: "e", mode: "a", workers: 3, rules: rs, scope: []c01KV{{"", "1"}}, events: es, mutate: true}, "ecal-pattern-variable-changed")
 	}
